@@ -104,6 +104,10 @@ func init() {
 			p.Stages = []Stage{sched("c01flush", 2, 16, 20, prm("variant", "compact")), bfs("lsm", 4, 40, prm("oracle", "c12")), bfs("lsm", 5, 75, prm("oracle", "c12", "ops", "Sa Sb Da Db F C0 C1 T"), seeds[:3]...),
 				// three L0 tables, the newest overlapping both older ones, which are disjoint from each other (the picker must take an oldest-first prefix of L0)
 				bfs("lsm", 5, 30, prm("oracle", "c12", "ops", "Sa Db F T C0"), seq("Sa F Sb F"), seq("Sb F Sa F")),
+				// two versions kept: a delete marker dropped at the bottom must take the older versions with it
+				bfs("lsm", 4, 30, prm("oracle", "c12", "keys", 1, "nvk", 2, "l0_tables", 1, "ops", "Sa Da F C0 T"), seq("Sa Sa Da"), seq("Sa Da Sa")),
+				// five two-key tables in the base level: a compaction whose upper table spans four or more of them is split into sub-compactions at table boundaries
+				bfs("lsm", 4, 40, prm("oracle", "c12", "mode", "normal", "keyset", "ten", "keys", 10, "big", true, "value_threshold", 1024, "big_size", 400, "base_level_size", 8192, "l0_tables", 1, "snapshots", false, "ops", "Sk0 Dk6 Dk7 Dk9 F C0"), seq("Bk0 Bk1 Bk2 Bk3 Bk4 Bk5 Bk6 Bk7 Bk8 Bk9 F C0")),
 				// the last level shrinks (its filler keys are deleted and compacted away) while the level above it still holds a key
 				bfs("lsm", 4, 40, prm("oracle", "c12", "mode", "normal", "keys", 1, "bulk", true, "value_threshold", 1024, "l0_tables", 1, "snapshots", false, "ops", "Sa Da F C0 C1 Nx"), seq("Ux F C0 Nx F C0 Sa F C0 U F C0")), bfs("lsm", 3, 30, prm("oracle", "c12"), seeds[3:]...), bfs("lsm", 2, 40, l0l0, l0seeds...)}
 		} else {
